@@ -22,6 +22,7 @@ def run(m, tier):
     from rules import guard_rules
     results.append(guard_rules.delimiter_offset_rule(m, "C01.R13"))
     results.append(guard_rules.keyword_prefix_rule(m, "C01.R14"))
+    results.append(guard_rules.index_provenance_rule(m, "C01.R21"))
     from rules import optional_rules
     results.append(optional_rules.optional_rule(m, "C01.R12"))
     results.append(optional_rules.printed_rule(m, "C01.R18"))
